@@ -326,6 +326,7 @@ def run_cfg(ctx, p, cfg, release):
     rule_right_align_replay(ctx, p, cfg, "T10")
     rule_arm_results(ctx, p, cfg, "T12")
     rule_group_children(ctx, p, cfg, "T13")
+    c10.rule_boundary_predicate(ctx, p, cfg, "T14")   # a width argument counts (and cuts at) characters: lead bytes are told from continuation bytes exactly (C10.A2 re-evaluated)
     if "config_parsing" in p.meta.get("features", []):
         rule_configured_pattern(ctx, p, cfg, "T11")
     with ctx.rule("T1", "formatter name table", cfg) as r:
